@@ -102,12 +102,14 @@ left unresolved at commit 1 -/
 example : annotate g3 [2, 3] 3 t3 d3 =
     ([⟨true, 3, 0⟩, ⟨false, 1, 0⟩, ⟨true, 2, 1⟩, ⟨false, 1, 1⟩], [9, 1, 3, 2]) := by decide
 
-/-- the early stop recorded as known finding
-`annotate:line-left-unresolved-at-start-after-root-counted-twice`, reproduced in the model:
+/-- the history of the repaired defect
+`annotate:line-left-unresolved-at-start-after-root-counted-twice` (`num_unresolved_roots` used to
+be incremented per missing edge, `/repo` a594350 counts an omitted parent once):
 `t = 1` "a d", `x = 2` "b", `c1 = 3 = merge(t, x)` "a b", `c2 = 4` (child of `t`) "a d c",
-`h = 5 = merge(c1, c2)` "a b d c", searched set `{2,3,4,5}` (domain `t..h`):
-line "b" keeps its initial value `Err(5, 1)` although its originator `x` is in the searched set;
-with the whole history searched it is `Ok(2, 0)`. -/
+`h = 5 = merge(c1, c2)` "a b d c", searched set `{2,3,4,5}` (domain `t..h`): both `c1` and `c2` have a
+missing edge to `t`, which is one unresolved root; the walk goes on to `x` and line "b" is
+`Ok(2, 0)` exactly as with the whole history searched (the per-edge count stopped the walk after
+`c1` and left "b" at its initial value `Err(5, 1)`). -/
 def gF : Graph := [[], [0], [0], [1, 2], [1], [3, 4]]
 def tF : List (List Nat) := [[], [1, 4], [2], [1, 2], [1, 4, 3], [1, 2, 4, 3]]
 def dF : Diffs := [((3, 1), [(0, 0, 1)]), ((3, 2), [(1, 0, 1)]), ((4, 1), [(0, 0, 2)]),
@@ -117,7 +119,7 @@ def dF : Diffs := [((3, 1), [(0, 0, 1)]), ((3, 2), [(1, 0, 1)]), ((4, 1), [(0, 0
 example : diffsSound tF dF = true := by decide
 
 example : (annotate gF [2, 3, 4, 5] 5 tF dF).1 =
-    [⟨false, 1, 0⟩, ⟨false, 5, 1⟩, ⟨false, 1, 1⟩, ⟨true, 4, 2⟩] := by decide
+    [⟨false, 1, 0⟩, ⟨true, 2, 0⟩, ⟨false, 1, 1⟩, ⟨true, 4, 2⟩] := by decide
 
 example : (annotate gF [1, 2, 3, 4, 5] 5 tF dF).1 =
     [⟨true, 1, 0⟩, ⟨true, 2, 0⟩, ⟨true, 1, 1⟩, ⟨true, 4, 2⟩] := by decide
